@@ -28,6 +28,10 @@ type C04Pub struct {
 	Expired bool `json:"expired,omitempty"`
 	Bg   bool `json:"bg,omitempty"`   // use Publish (background context) instead of PublishContext
 	Any  bool `json:"any,omitempty"`  // published through an interface-typed value (Publish[any]): same event, dynamic-type dispatch
+	// FMid (only with FilterCancel, first registration's type): the publish context is cancelled from inside the
+	// FIRST filter evaluated for it - the accept-all predicate of the extra Once handler subscribed before all
+	// others. Nothing has run yet, so nothing may run and no Once handler is used up - that one least of all.
+	FMid bool `json:"fmid,omitempty"`
 	Mid  bool `json:"mid,omitempty"`  // (only with a canceller) the canceller cancels this publish's context before any other handler's turn
 }
 
@@ -54,6 +58,8 @@ type C04Scenario struct {
 	// Once handlers, odd ones ordinary): all stay subscribed - and none of the earlier Once handlers may be
 	// lost or kept because the registry grew between a publish's snapshot and its removal step.
 	LateSubs []int `json:"late_subs,omitempty"`
+	// FilterCancel: see C04Pub.FMid
+	FilterCancel bool `json:"filter_cancel,omitempty"`
 }
 
 func genC04(rt *rapid.T) core.Scenario {
@@ -114,6 +120,16 @@ func genC04(rt *rapid.T) core.Scenario {
 	sc.Panics = rapid.IntRange(0, 3).Draw(rt, "panics") == 3
 	sc.ShareOpts = rapid.IntRange(0, 2).Draw(rt, "shareOpts") == 2
 	sc.SelfUnsub = rapid.IntRange(0, 3).Draw(rt, "selfUnsub") == 3
+	if rapid.IntRange(0, 3).Draw(rt, "filterCancel") == 3 {
+		sc.FilterCancel = true
+		for i := range sc.Pubs {
+			for j := range sc.Pubs[i] {
+				if p := &sc.Pubs[i][j]; p.Type == sc.Regs[0].Type && !p.Dead && !p.Mid && rapid.IntRange(0, 1).Draw(rt, "fmid") == 1 {
+					p.FMid, p.Bg, p.Any = true, false, false
+				}
+			}
+		}
+	}
 	if rapid.IntRange(0, 2).Draw(rt, "late") == 2 {
 		for n := rapid.IntRange(1, 3).Draw(rt, "nLate"); n > 0; n-- {
 			sc.LateSubs = append(sc.LateSubs, types[rapid.IntRange(0, nTypes-1).Draw(rt, "lateType")])
@@ -133,11 +149,14 @@ func (sc *C04Scenario) Execute(t *testing.T) *core.Outcome {
 	var w *World
 	inv := map[int][]int{} // regKey -> event ids it was invoked with
 	selfUnsubRuns := 0
+	var fcRuns []int // events the filter-cancelling Once handler was invoked with
+	fcCancelled := map[int]bool{} // FMid publishes whose context that handler's filter did cancel (it was still subscribed)
 	var selfUnsubErr error
 	body := func() {
 		w = NewWorld()
 		w.ShareOptions = sc.ShareOpts
 		cancelFn := map[int]context.CancelFunc{}
+		fmid := map[int]bool{}
 		w.OnInvoke = func(ti, fn, uid int, ctx context.Context, id int) {
 			if uid == 9001 { // the self-unsubscribing Once handler
 				selfUnsubRuns++
@@ -146,8 +165,13 @@ func (sc *C04Scenario) Execute(t *testing.T) *core.Outcome {
 				}
 				return
 			}
+			if uid == 9002 { // the Once handler whose filter cancels FMid publishes
+				fcRuns = append(fcRuns, id)
+				w.Rec.Add("enter", 9002, id, "")
+				return
+			}
 			if uid == 9000 { // the canceller
-				if c := cancelFn[id]; c != nil {
+				if c := cancelFn[id]; c != nil && !fmid[id] {
 					c()
 				}
 				return
@@ -161,6 +185,21 @@ func (sc *C04Scenario) Execute(t *testing.T) *core.Outcome {
 			w.Rec.Add("exit", k, id, "")
 			if sc.Panics && k < len(sc.Regs) && sc.Regs[k].Opts.Once && !simrt.Dying() {
 				panic(fmt.Sprintf("once handler %d panics", k))
+			}
+		}
+		if sc.FilterCancel {
+			w.OnFilter = func(ti, fn, id int, accepted bool) {
+				if fn == numSites-4 {
+					if c := cancelFn[id]; c != nil && fmid[id] {
+						w.Rec.Add("filter-cancels", id, 0, "")
+						fcCancelled[id] = true
+						c()
+					}
+				}
+			}
+			if err := w.SubscribeUID(sc.Regs[0].Type, numSites-4, 9002, SubOpts{Once: true, Filter: 5}); err != nil {
+				out.HarnessErr = err.Error()
+				return
 			}
 		}
 		if sc.SelfUnsub {
@@ -195,9 +234,10 @@ func (sc *C04Scenario) Execute(t *testing.T) *core.Outcome {
 				for _, p := range l {
 					w.Rec.Add("pub-call", p.Type, p.ID, "")
 					switch {
-					case p.Mid:
+					case p.Mid, p.FMid:
 						ctx, cancel := context.WithCancel(context.Background())
 						cancelFn[p.ID] = cancel
+						fmid[p.ID] = p.FMid
 						allTypes[p.Type].Pub(w, ctx, p.ID)
 					case p.Dead && p.Expired:
 						ctx, cancel := context.WithDeadline(context.Background(), time.Now().Add(-time.Second))
@@ -242,7 +282,7 @@ func (sc *C04Scenario) Execute(t *testing.T) *core.Outcome {
 			var e []int
 			for _, l := range sc.Pubs {
 				for _, p := range l {
-					if p.Type == r.Type && !p.Dead && !p.Mid && filterAccepts(r.Opts.Filter, p.ID) {
+					if p.Type == r.Type && !p.Dead && !p.Mid && !fcCancelled[p.ID] && filterAccepts(r.Opts.Filter, p.ID) {
 						e = append(e, p.ID)
 					}
 				}
@@ -252,7 +292,7 @@ func (sc *C04Scenario) Execute(t *testing.T) *core.Outcome {
 		dead := 0
 		for _, l := range sc.Pubs {
 			for _, p := range l {
-				if p.Dead || p.Mid {
+				if p.Dead || p.Mid || fcCancelled[p.ID] {
 					dead++
 				}
 			}
@@ -309,11 +349,38 @@ func (sc *C04Scenario) Execute(t *testing.T) *core.Outcome {
 		// (whether Unsubscribe still finds the running Once handler - claimed, about to be retired - is left
 		// open: nil and "not found" are both accepted; what counts is that it is gone afterwards)
 		_ = selfUnsubErr
-		selfLeft := func(ti int) int {
-			if sc.SelfUnsub && selfUnsubRuns == 0 && ti == sc.Regs[0].Type {
-				return 1 // not reached by a live publish so far: still registered (on the first registration's type)
+		// the filter-cancelling Once handler: eligible for every publish of its type that is neither dead on arrival
+		// nor cancelled by its own filter (it comes first, so a canceller's publish reaches it while still live)
+		fcEligible := 0
+		for _, l := range sc.Pubs {
+			for _, p := range l {
+				if sc.FilterCancel && p.Type == sc.Regs[0].Type && !p.Dead && !p.FMid {
+					fcEligible++ // (an FMid publish is one it cancels itself, if it is still there)
+				}
 			}
-			return 0
+		}
+		if sc.FilterCancel {
+			if len(fcRuns) > 1 {
+				out.V("once-fired-twice", "the Once handler whose filter cancels publishes ran %d times (%v)", len(fcRuns), fcRuns)
+			}
+			for _, id := range fcRuns {
+				if fcCancelled[id] {
+					out.V("once-fired-ineligible", "a Once handler ran for event %d although its own filter had cancelled that publish before anything ran", id)
+				}
+			}
+			if fcEligible > 0 && len(fcRuns) == 0 {
+				out.V("once-eligible-not-fired", "the Once handler whose filter cancels some publishes never ran although %d publishes it was eligible for happened (a publish cancelled during its filter must not use it up)", fcEligible)
+			}
+		}
+		selfLeft := func(ti int) int {
+			n := 0
+			if sc.SelfUnsub && selfUnsubRuns == 0 && ti == sc.Regs[0].Type {
+				n++ // not reached by a live publish so far: still registered (on the first registration's type)
+			}
+			if sc.FilterCancel && len(fcRuns) == 0 && ti == sc.Regs[0].Type {
+				n++
+			}
+			return n
 		}
 		seenT := map[int]bool{}
 		for _, r := range sc.Regs {
